@@ -51,7 +51,7 @@ func main() {
 	for _, n := range []struct {
 		name string
 		c    elliptic.Curve
-	}{{"p224", elliptic.P224()}, {"p256", elliptic.P256()}, {"p256b", elliptic.P256()}, {"p256c", elliptic.P256()}, {"p256d", elliptic.P256()}, {"p384", elliptic.P384()}, {"p521", elliptic.P521()}} {
+	}{{"p224", elliptic.P224()}, {"p256", elliptic.P256()}, {"p256b", elliptic.P256()}, {"p256c", elliptic.P256()}, {"p256d", elliptic.P256()}, {"p256e", elliptic.P256()}, {"p256f", elliptic.P256()}, {"p384", elliptic.P384()}, {"p521", elliptic.P521()}} {
 		if _, err := os.Stat(filepath.Join(dir, n.name+".pkcs8.pem")); err == nil {
 			continue
 		}
@@ -60,7 +60,7 @@ func main() {
 		w(dir, n.name+".sec1.pem", "EC PRIVATE KEY", must(x509.MarshalECPrivateKey(k)))
 		w(dir, n.name+".pub.pem", "PUBLIC KEY", must(x509.MarshalPKIXPublicKey(&k.PublicKey)))
 	}
-	for _, name := range []string{"ed1", "ed2", "ed3", "ed4", "ed5", "ed6"} {
+	for _, name := range []string{"ed1", "ed2", "ed3", "ed4", "ed5", "ed6", "ed7", "ed8", "ed9"} {
 		if _, err := os.Stat(filepath.Join(dir, name+".pkcs8.pem")); err == nil {
 			continue
 		}
